@@ -321,9 +321,50 @@ def gen_time(rng, tier):
     return out
 
 
+def gen_hist(rng, tier, valid):
+    """ONE object used the way a long-lived caller does (ebp.hist): the time is read after EVERY step, between two
+    SetEBPTime calls that fall into the same whole second, across Data() calls and flag changes; from a created and from
+    a decoded object"""
+    out = []
+    timed = [b for b in valid if (b[0] == 0xA9 and len(b) > 2 and b[2] & 0x08) or (b[0] == 0xDF and len(b) > 6 and b[6] & 0x08)]
+    for i in range(250 if tier == "quick" else 8000):
+        steps, sets = [], []
+        t = rand_instant(rng)
+        decoded = bool(timed) and i % 3 == 2
+        if not decoded:
+            steps.append("[4 1]")
+        for _ in range(rng.randrange(2, 7)):
+            r = rng.random()
+            if r < 0.45:      # another instant in the SAME second
+                t = t // NS * NS + rng.choice([0, 1, 999999999, rng.randrange(NS), (t % NS + rng.choice([1, 40, 250000000])) % NS])
+            elif r < 0.6:     # the same sub-second part in another second
+                t = min(HI - 1, max(LO, t + rng.choice([-3, -1, 1, 3, E32 // 2]) * NS))
+            elif r < 0.7:
+                t = rand_instant(rng)
+            else:
+                steps.append(rng.choice(["[21 0]", "[0 1]", "[0 0]", "[1 1]", "[4 1]", "[6 1]", "[21 0]"]))
+                continue
+            if not LO <= t < HI:
+                t = rand_instant(rng)
+            steps.append("[9 %d]" % t)
+            sets.append(t)
+        if rng.random() < 0.5:
+            steps.append("[21 0]")
+        if not sets:
+            continue
+        start = "[%s]" % vlib.hx(rng.choice(timed)) if decoded else "[%d]" % rng.randrange(2)
+        line = sp("ebp.hist %s [%s]" % (start, " ".join(steps)))
+        # the property fixes every instant read back to within 1 ns of the last one set: judged by the oracle; the exact
+        # field values are compared by the fidelity twin
+        out.append(Case(line, kind="hist-time-decoded" if decoded else "hist-time", decides=True, nontrivial=True,
+                        theorem="C12_time_roundtrip", note="oracle-hist"))
+        out.append(Case(line, kind="hist-time-fields", decides=False, nontrivial=False, theorem="fidelity"))
+    return out
+
+
 def gen(rng, tier):
     dec, valid = gen_decode(rng, tier)
-    cases = dec + gen_build(rng, tier) + gen_time(rng, tier) + gen_malformed(rng, tier, valid)
+    cases = dec + gen_build(rng, tier) + gen_time(rng, tier) + gen_malformed(rng, tier, valid) + gen_hist(rng, tier, valid)
     # Fidelity cases of the readers: the tree may or may not have notes/findings/C05-ebp.patch (F11).  Both variants are
     # modelled (g = false / g = true, related by C05_read_ebp_patch_only_adds_error); the alternative answer is attached and
     # the oracle accepts a tree that follows ONE of the two variants consistently.
@@ -349,6 +390,27 @@ def oracle(c, real, model):
         if abs(got - t) > 1:
             return "EBPTime(SetEBPTime(t)) - t = %d ns (required: at most 1 ns)" % (got - t)
         return ""
+    if c.kind.startswith("hist-time") and c.decides:
+        # every read of the time, after every step, is within 1 ns of the last instant set (C12_time_roundtrip applied at each
+        # SetEBPTime; the steps in between do not touch the time fields)
+        if real == model:
+            return ""
+        try:
+            v = vlib.parse_val(real)
+            if c.kind == "hist-time-decoded":
+                if v[0] != 0:
+                    return "the well-formed EBP no longer decodes: " + real[:200]
+                v = v[1]
+            steps = vlib.parse_val(c.line[c.line.index("[", c.line.index("]")):])
+            last = None
+            for st, ob in zip(steps, v[1:]):
+                if st[0] == 9:
+                    last = st[1]
+                if last is not None and abs(ob[0][17] - last) > 1:
+                    return "EBPTime() is %d ns away from the last SetEBPTime(%d) after step %s (required: at most 1 ns)" % (ob[0][17] - last, last, st)
+            return "fidelity: every instant is within 1 ns but another getter differs from the model"
+        except Exception as e:
+            return "unreadable observation: " + real[:200]
     if c.kind == "build-consistent-time":
         # built through SetEBPTime: judged by the property (encode/decode agree, length byte, instant within 1 ns)
         if real == model:
@@ -391,6 +453,10 @@ def case_of_line(line, kind):
         if LO <= t < HI:
             return Case(line, kind="time-in-range", theorem="C12_time_roundtrip")
         return Case(line, kind="time-out-of-range", decides=False, theorem="fidelity")
+    if op == "ebp.hist":
+        if kind in ("hist-time", "hist-time-decoded"):
+            return Case(line, kind=kind, theorem="C12_time_roundtrip", note="oracle-hist")
+        return Case(line, kind=kind or "hist-time-fields", decides=False, theorem="fidelity")
     if op in ("ebp.build", "ebp.buildg") and kind == "build-consistent-time":
         return Case(line, kind=kind, theorem="C12_build_encode_decode", note="oracle-build")
     return Case(line, kind=kind or "replay")
